@@ -35,6 +35,10 @@ type HostSpec struct {
 	TokenFault string `json:"token_fault,omitempty"`
 	// Accept: the registry accepts any syntactically valid token of its own (valid) or rejects everything (never)
 	Accept string `json:"accept,omitempty"` // "" = validate; "never" = always 401
+	// IssuedAgoMs: the token server hands out tokens that were issued that long ago (as servers
+	// that cache tokens do) and says so in "issued_at"; expires_in counts from there. Ignored
+	// for a token that would already be expired on arrival.
+	IssuedAgoMs int `json:"issued_ago_ms,omitempty"`
 	// Retry401: what the 401 given to a request that presented a Bearer token carries instead of the
 	// usual challenge: "" = the usual challenge; "nohdr" = no Www-Authenticate at all; "negotiate" = an
 	// unsupported scheme; "malformed" = an unparsable header.
@@ -407,8 +411,12 @@ func (w *World) tokenServer(hs []*HostSpec, req *http.Request, a *Arrival, body 
 		ttl = 60
 	}
 	t := Token{N: w.nTokens, Issuer: req.URL.Host, Service: service, Scope: scopeText, IssuedMs: a.AtMs, TTL: ttl, ForHost: h.Name}
-	a.Minted = &t
 	out := map[string]any{}
+	if h.IssuedAgoMs > 0 && h.IssuedAgoMs < ttl*1000 {
+		t.IssuedMs -= int64(h.IssuedAgoMs)
+		out["issued_at"] = w.Start.Add(time.Duration(t.IssuedMs) * time.Millisecond).UTC().Format(time.RFC3339Nano)
+	}
+	a.Minted = &t
 	if h.TokenFault == "accessfield" {
 		out["access_token"] = t.Encode()
 	} else {
